@@ -49,6 +49,41 @@ def _is_class(node, glob):
     return isinstance(v, type)
 
 
+def _single_assignments(fn):
+    """{name: value-expression} for local names that are assigned exactly once (plain `name = expr`) in the function"""
+    seen, count = {}, {}
+    for node in ast.walk(fn):
+        tgts = []
+        if isinstance(node, ast.Assign):
+            tgts = [t for t in node.targets]
+        elif isinstance(node, (ast.AugAssign, ast.AnnAssign)):
+            tgts = [node.target]
+        elif isinstance(node, (ast.For, ast.AsyncFor)):
+            tgts = [node.target]
+        for t in tgts:
+            for nm in ast.walk(t):
+                if isinstance(nm, ast.Name):
+                    count[nm.id] = count.get(nm.id, 0) + 1
+                    if isinstance(node, ast.Assign) and len(node.targets) == 1 and isinstance(t, ast.Name):
+                        seen[nm.id] = node.value
+    return {k: v for k, v in seen.items() if count.get(k) == 1}
+
+
+def _inline(n, env, depth=0):
+    """replace single-assignment local names by their defining expressions (a refactor that names a sub-expression
+    must not change the translation)"""
+    if depth > 6:
+        return n
+
+    class T(ast.NodeTransformer):
+        def visit_Name(self, node):
+            if isinstance(node.ctx, ast.Load) and node.id in env:
+                return _inline(env[node.id], {k: v for k, v in env.items() if k != node.id}, depth + 1)
+            return node
+    import copy
+    return T().visit(copy.deepcopy(n))
+
+
 def _tr(n, glob, params, mode="int"):
     lit = (lambda k: "(%d : Int)" % k) if mode == "int" else (lambda k: "%d" % k)
 
@@ -195,15 +230,20 @@ def gen_exprs(status_out=None):
             obj = inspect.unwrap(obj)
             fn, path, line0 = _func_ast(obj)
             hits = _find(fn, locator)
+            env = _single_assignments(fn)
             cands = []
             for node, val in hits:
-                ps = []
-                try:
-                    e = _tr(val, vars(mod), ps, mode)
-                except Untranslatable:
-                    continue
-                if len(ps) == len(dparams):
-                    cands.append((e, ps, node.lineno + line0 - 1))
+                # as written first; if that does not mention exactly the expected state variables, with the
+                # single-assignment locals of the function inlined
+                for variant in (val, _inline(val, {k: v for k, v in env.items() if k not in dparams})):
+                    ps = []
+                    try:
+                        e = _tr(variant, vars(mod), ps, mode)
+                    except Untranslatable:
+                        continue
+                    if sorted(ps) == sorted(dparams):
+                        cands.append((e, ps, node.lineno + line0 - 1))
+                        break
             if len(cands) == 1:
                 expr, params, ln = cands[0]
                 where = "%s (%s)" % (modname.replace(".", "/") + ".py", qual)   # no line number: it would churn the build
